@@ -112,6 +112,19 @@ def enumerate_paths(body, is_target, limit=4000):
                 nm = strip_generics(callee_name(t) or "?")
                 a, p = _canon(G.Val("call", nm, [G.describe(body, x) for x in t["args"]]))
             env[t["dest"]["l"]] = ("lit", a, p) if a is not None else None
+        if t["k"] == "call" and not t["dest"]["p"]:
+            # `?` on a value whose variant is known on this path: Ok / Some continue, Err / None break
+            nm = strip_generics(callee_name(t) or "?")
+            dk = "disc:%d" % t["dest"]["l"]
+            env.pop(dk, None)
+            if nm.endswith("Try>::branch") and t["args"]:
+                ap = op_place(t["args"][0])
+                kd = env.get("disc:%d" % ap["l"]) if ap is not None and not ap["p"] else None
+                if kd is not None:
+                    if "result::Result" in nm:
+                        env[dk] = kd  # Ok(0) -> Continue(0), Err(1) -> Break(1)
+                    elif "option::Option" in nm:
+                        env[dk] = 1 - kd  # None(0) -> Break(1), Some(1) -> Continue(0)
         if t["k"] != "switch":
             for y in body.succ(b):
                 step(y, env, lits, seen | {b})
